@@ -62,6 +62,28 @@ Definition post_after_stop (s : st) : Prop :=
          /\ queue s' = queue s /\ executed s' = executed s
          /\ alive s' = alive s /\ escaped s' = false.
 
+(* ------------------------------------------------------------------ Part 1i *)
+(* Which closures run, when, how often and in what order does not depend on the ids their
+   RunTasks carry: for EVERY value [c0] of the process-wide counter (so also right before and
+   across the uint32 wrap, where a task gets id 0) and every id-annotated schedule, forgetting
+   the ids leaves a run of the scheduler system of Part 1 - to which all its theorems apply -
+   and every task the consumer received was executed, whatever its id (the id log is the
+   execution log, entry by entry, each with the id its Post allocated). *)
+Definition id_independent (progs : list (list kind)) (ws : bool) (c0 : Z) (ls : list ilabel) : Prop :=
+  let s := irun (iinit progs ws c0) ls in
+  i_st s = run_sched (init progs ws) (erase ls)
+  /\ reachable progs ws (i_st s)
+  /\ map fst (i_xids s) = exec_ids (i_st s)
+  /\ (forall c id, In (c, id) (i_xids s) -> In (c, id) (i_given s))
+  /\ length (i_qids s) = length (queue (i_st s)).
+
+(* The k-th id handed out is (c0 + k) mod 2^32: uint32 arithmetic, 0 included. *)
+Definition ids_wrap (progs : list (list kind)) (ws : bool) (c0 : Z) (ls : list ilabel) : Prop :=
+  let s := irun (iinit progs ws c0) ls in
+  map snd (i_given s) = map (fun k => wrap32 (c0 + Z.of_nat k)) (seq 1 (length (i_given s)))
+  /\ (forall c id, In (c, id) (i_given s) -> 0 <= id < two32)
+  /\ i_ctr s = last (map snd (i_given s)) c0.
+
 (* ------------------------------------------------------------------ Part 2 *)
 
 Definition is_task (e : ev) : bool := match e with ETask _ _ => true | EFinal _ _ => false end.
@@ -111,6 +133,16 @@ Definition error_jumps (tasks : list beh) (l : list ev) : Prop :=
   forall i a b r, In (ETask i a) l -> nth_error tasks i = Some b -> completions b = [(true, r)] ->
     exists pre, l = pre ++ [ETask i a; EFinal true r].
 
+(* ---- shared task lists (Part 2s) ---- *)
+
+(* what holds of ONE chain over a list of its own, restated for a chain state [cs] found among
+   many chains sharing the list [tasks] *)
+Definition shared_chain_ok (tasks : list beh) (cs : cst) : Prop :=
+  creachable tasks cs
+  /\ (invoked_amo tasks (clog cs) -> prefix (clog cs) (spec tasks) /\ (cquiescent cs -> clog cs = spec tasks))
+  /\ (invoked_amo tasks (clog cs) -> (finals_in (clog cs) <= 1)%nat)
+  /\ (invoked_once tasks (clog cs) -> cquiescent cs -> finals_in (clog cs) = 1%nat).
+
 (* ---- the other runners (Part 2b Simple, Part 2c ExecAndWait) ---- *)
 
 (* the log is an initial segment of the history function *)
@@ -152,6 +184,11 @@ Definition sev_eqb (a b : sev) : bool :=
   | STask c i x, STask d j y => Z.eqb c d && Z.eqb i j && zlist_eqb x y
   | SFinal c e x, SFinal d f y => Z.eqb c d && Bool.eqb e f && zlist_eqb x y
   | SRet c, SRet d | SEsc c, SEsc d | SHang c, SHang d | SMgr c, SMgr d | SBad c, SBad d => Z.eqb c d
+  (* "the consumer received a task": the property does not speak about the VALUE of a task id
+     (how ids are allocated may change without touching it), so the value is shown in the
+     observation but not compared; that the counter really was where OSetId put it, and that a
+     task with id 0 was received, is measured by the harness (SBad 8, tag id0-received) *)
+  | SId _, SId _ => true
   | _, _ => false
   end.
 
